@@ -360,6 +360,38 @@ def r11_paths(text, m, ed, fns=()):
                     ed.add(toks[q].s, toks[q].s, "pub ", "R11", prio=-4)
 
 
+def r13_le_bytes(text, m, ed):
+    """`x.to_le_bytes()` / `T::from_le_bytes(b)`: std returns `[u8; size_of::<T>()]`, a const
+    expression this Verus cannot match in an assume_specification. Rewritten to the shim trait
+    methods `shim_to_le_bytes` / `shim_from_le_bytes` (shims/codec_std.rs), whose bodies are exactly
+    the std calls and whose assumed contract is the little-endian byte layout."""
+    for mm in re.finditer(r"\.to_le_bytes\(\)", m):
+        ed.add(mm.start(), mm.end(), ".shim_to_le_bytes()", "R13")
+    for mm in re.finditer(r"::from_le_bytes\(", m):
+        ed.add(mm.start(), mm.end(), "::shim_from_le_bytes(", "R13")
+
+
+def r14_wild_params(text, m, ed, fns):
+    """`_: T` function parameters get a name (`_p0`, ...): Verus requires identifier patterns."""
+    toks = tokenize(text)
+    for f in fns:
+        n = 0
+        depth = 0
+        for t in toks:
+            if not (f.params_open <= t.s < f.params_close):
+                continue
+            if t.kind == "p" and t.text in OPEN:
+                depth += 1
+            elif t.kind == "p" and t.text in CLOSE:
+                depth -= 1
+            elif depth == 1 and t.kind == "id" and t.text == "_":
+                # must be followed by ':'
+                nxt = m[t.e:t.e + 3].lstrip()
+                if nxt.startswith(":"):
+                    ed.add(t.s, t.e, f"_p{n}", "R14")
+                    n += 1
+
+
 R7_MACROS = ("eprintln", "println", "eprint", "print")
 
 
